@@ -50,14 +50,44 @@ func runA(h History, mode string) *core.Violation {
 	defer w.Close()
 	r := newRun(w, h)
 	defer r.finish()
-	for _, op := range h.Ops {
-		r.apply(op)
+	var pm *pmodel // histories with restarts at any point: the link structure is followed by the model of piv_test.go
+	if hasRestartX(h) {
+		pm = newPModel(len(h.Agents))
 	}
-	return compareRestored(w, r)
+	for i, op := range h.Ops {
+		if pm == nil {
+			r.apply(op)
+			continue
+		}
+		isRestart := op.K == "restart" || op.K == "restartx"
+		var before []string
+		if isRestart {
+			before = activeIDs(w)
+		}
+		done := r.apply(op)
+		if !isRestart {
+			pm.step(op, nil)
+			continue
+		}
+		pm.step(op, &done)
+		if !done {
+			continue
+		}
+		when := fmt.Sprintf("after the restart at operation %d", i)
+		rows, _ := pvx.LinkRows(w.SQL)
+		if v := compareStructure(memView(w), before, wantView(h, pm.mem), when, rowsString(rows)); v != nil {
+			return v
+		}
+		if v := oneRowPerChild(rows, when); v != nil {
+			return v
+		}
+	}
+	return compareRestored(w, r, pm)
 }
 
-// compareRestored opens the file again and compares with the server's memory.
-func compareRestored(w *pvx.World, r *runState) *core.Violation {
+// compareRestored opens the file again and compares with the server's memory (pm != nil:
+// the link structure is compared with the model of piv_test.go instead).
+func compareRestored(w *pvx.World, r *runState, pm *pmodel) *core.Violation {
 	want := map[string]AgentImage{}
 	for _, a := range w.TS.Agents.Agents {
 		if a == nil {
@@ -125,7 +155,36 @@ func compareRestored(w *pvx.World, r *runState) *core.Violation {
 	}
 
 	// ---- links, read the way Start() does for every restored agent
+	if pm != nil {
+		rows, _ := pvx.LinkRows(w.SQL)
+		if v := oneRowPerChild(rows, "at the end of the history"); v != nil {
+			return v
+		}
+		// what Start() makes of the rows: a parent / link that is not restored is no session
+		gotV := map[string]sessView{}
+		for _, id := range ids {
+			v := sessView{}
+			if pid, err := d2.ParentOf(idInt(id)); err == nil {
+				if p := fmt.Sprintf("%08x", pid); got[p].ID != "" {
+					v.Parent = p
+				}
+			}
+			for _, k := range d2.LinksOf(idInt(id)) {
+				if c := fmt.Sprintf("%08x", k); got[c].ID != "" {
+					v.Links = append(v.Links, c)
+				}
+			}
+			sort.Strings(v.Links)
+			gotV[id] = v
+		}
+		if v := compareStructure(gotV, ids, wantView(r.h, pm.afterRestart()), "reopening the file after the last operation", rowsString(rows)); v != nil {
+			return v
+		}
+	}
 	for _, id := range ids {
+		if pm != nil {
+			break
+		}
 		wantParent := ""
 		var wantKids []string
 		for _, p := range pairs {
@@ -542,6 +601,9 @@ func genOps(t *rapid.T, n, nagents int, allowHTTP bool) []Op {
 
 func genA(t *rapid.T) History {
 	var h History
+	if rapid.IntRange(0, 3).Draw(t, "pivot-trees") == 0 {
+		return genPivotHistory(t, 6, 14) // piv_test.go
+	}
 	h.Agents = genAgents(t, 1, 5)
 	h.DB = rapid.SampledFrom([]string{"fresh", "existed", "golden"}).Draw(t, "db")
 	// a few registrations first so that the rest of the history has somebody to act on
@@ -655,14 +717,14 @@ func summarizeH(h History) hsum {
 				}
 			}
 			continue
-		case "restart":
+		case "restart", "restartx":
 			ok := true
 			for c, p := range parent {
 				if !active[c] || !active[p] {
 					ok = false
 				}
 			}
-			if !ok {
+			if !ok && op.K == "restart" {
 				continue
 			}
 			s.restarts++
@@ -810,6 +872,8 @@ func classifyH(h History) core.Class {
 	}
 	add(s.craftedLast && len(s.tags) > 0, "upd:reopen-right-after")
 	add(true, "db:"+h.dbMode())
+	pivL, pivBucket := pivotLabels(h) // piv_test.go: histories with restarts at any point
+	cl.Labels = append(cl.Labels, pivL...)
 	var lk []string
 	for k := range s.lkinds {
 		lk = append(lk, k)
@@ -874,6 +938,9 @@ func classifyH(h History) core.Class {
 		rs = "restart+rereg"
 	}
 	cl.Fingerprint = fmt.Sprintf("death=%v|link=%s|num=%s|listeners=%s|collide=%v|restart=%s", s.death, link, num, lst, s.lcollide, rs)
+	if pivBucket != "" {
+		cl.Fingerprint += "|any-point-restart=" + pivBucket
+	}
 	return cl
 }
 
@@ -892,11 +959,13 @@ func dedup(in []string) []string {
 func TestC10a(t *testing.T) {
 	core.Run(t, core.Spec[History]{
 		Property: "C10", Sub: "a",
-		Rule: "histories of 1-5 registrations followed by 0-25 operations over 1-5 agents (database file, a third each: fresh / created by the current code and opened again / a copy of the committed testdata/golden-schema.db made by the unchanged tree - labels db:fresh|existed|golden; a violation on the golden file only, while its schema differs from a fresh one, is reported as schema|existing-database-differs-from-fresh|<tables>; ids over the whole 32-bit range incl. >= 2^31; metadata strings from {plain, digit-only, leading zeros, exponent-like, hex-like, whitespace-padded, empty, non-ASCII, quotes/SQL, decimal/signed/huge numbers, 300-9000 bytes}): reg, poll, pivot connect/disconnect, COMMAND_CHECKIN with new metadata and key, sleep / kill-date / working-hours callbacks, exit, kill-date, operator mark dead/alive, listener add (SMB, External; HTTP on an ephemeral port at ~1/20 of adds; names, and a third of the pipe names / endpoints, mostly from one per-history family of strings that differ but collide under ASCII/Unicode case, LIKE/glob wildcards vs literal characters, leading/trailing blanks, prefixes, Unicode normalisation or SQL quoting - label listener-names-colliding = two such listeners coexist) / remove / HTTP edit through the operator's DispatchEvent path; about half of the histories also contain one family of crafted updates of one agent (labels upd:*), mostly as the last operations so that the reopen follows at once: BOUNDARY SHIFT - two consecutive updates (key-preserving check-ins, or sleep callbacks) whose rows differ only by characters/digits moved across the boundary of two columns adjacent in the write order of db.AgentUpdate or in agent.AgentInfo (e.g. Username|DomainName bob|'' -> ''|bob, SleepDelay|SleepJitter 1|20 -> 12|0, ProcessName|BaseAddress svc1|23 -> svc|123), everything else incl. LastCallIn byte-identical; SWAP of two same-typed columns; NO-OP update(s) followed by a real one; REVERT A->B->A; each optionally interleaved with repeated identical updates; RESTART operations in the middle (a new Teamserver on the same file restores sessions, links and listeners as Start() does - in (a)/(b) a transcription of its restore loops, in (c) the real Start() in a new process - then the history goes on with registrations of new ids, of restored ids and of ids that were NOT restored because they were inactive, updates, deaths, marks, link and listener changes; several restarts allowed; only performed while every stored link joins two active sessions; labels restart-in-the-middle, restarts:2+, operations-after-restart, re-registration-of-unrestored-inactive-id, new-id-registered-after-restart); then a fresh db.DatabaseNew on the same file read with AgentAll/ParentOf/LinksOf/ListenerAll. Oracle: restored agents == active sessions of the running server, 25 columns equal byte for byte incl. key and IV; ParentOf/LinksOf == the server's Links lists; listener rows == listeners present with every operator-configured field equal. Non-trivial: a death, a link change or a numeric-looking string before the reopen; distinct = (death, link none/add/add+remove, numeric class bucket, listeners none/smb-ext/http/http-edited, colliding names, none/restart/restart+re-registration)",
+		Rule: "histories of 1-5 registrations followed by 0-25 operations over 1-5 agents (database file, a third each: fresh / created by the current code and opened again / a copy of the committed testdata/golden-schema.db made by the unchanged tree - labels db:fresh|existed|golden; a violation on the golden file only, while its schema differs from a fresh one, is reported as schema|existing-database-differs-from-fresh|<tables>; ids over the whole 32-bit range incl. >= 2^31; metadata strings from {plain, digit-only, leading zeros, exponent-like, hex-like, whitespace-padded, empty, non-ASCII, quotes/SQL, decimal/signed/huge numbers, 300-9000 bytes}): reg, poll, pivot connect/disconnect, COMMAND_CHECKIN with new metadata and key, sleep / kill-date / working-hours callbacks, exit, kill-date, operator mark dead/alive, listener add (SMB, External; HTTP on an ephemeral port at ~1/20 of adds; names, and a third of the pipe names / endpoints, mostly from one per-history family of strings that differ but collide under ASCII/Unicode case, LIKE/glob wildcards vs literal characters, leading/trailing blanks, prefixes, Unicode normalisation or SQL quoting - label listener-names-colliding = two such listeners coexist) / remove / HTTP edit through the operator's DispatchEvent path; about half of the histories also contain one family of crafted updates of one agent (labels upd:*), mostly as the last operations so that the reopen follows at once: BOUNDARY SHIFT - two consecutive updates (key-preserving check-ins, or sleep callbacks) whose rows differ only by characters/digits moved across the boundary of two columns adjacent in the write order of db.AgentUpdate or in agent.AgentInfo (e.g. Username|DomainName bob|'' -> ''|bob, SleepDelay|SleepJitter 1|20 -> 12|0, ProcessName|BaseAddress svc1|23 -> svc|123), everything else incl. LastCallIn byte-identical; SWAP of two same-typed columns; NO-OP update(s) followed by a real one; REVERT A->B->A; each optionally interleaved with repeated identical updates; RESTART operations in the middle (a new Teamserver on the same file restores sessions, links and listeners as Start() does - in (a)/(b) a transcription of its restore loops, in (c) the real Start() in a new process - then the history goes on with registrations of new ids, of restored ids and of ids that were NOT restored because they were inactive, updates, deaths, marks, link and listener changes; several restarts allowed; only performed while every stored link joins two active sessions; labels restart-in-the-middle, restarts:2+, operations-after-restart, re-registration-of-unrestored-inactive-id, new-id-registered-after-restart); then a fresh db.DatabaseNew on the same file read with AgentAll/ParentOf/LinksOf/ListenerAll. Oracle: restored agents == active sessions of the running server, 25 columns equal byte for byte incl. key and IV; ParentOf/LinksOf == the server's Links lists; listener rows == listeners present with every operator-configured field equal. Non-trivial: a death, a link change or a numeric-looking string before the reopen; distinct = (death, link none/add/add+remove, numeric class bucket, listeners none/smb-ext/http/http-edited, colliding names, none/restart/restart+re-registration) ADDED - PIVOT TREES UNDER RESTARTS AT ANY POINT (a quarter of the histories, piv_test.go; label pivot-trees-with-restarts-at-any-point): 3-6 agents, a forest of depth up to 3 built through the real connect path (1-2 registered roots, every other session through the SMB-connect callback of its parent, some registered top-level first and then linked), then 3-14 events aimed by a model of the history at sessions for which they mean something: disconnect of an existing UPPER link (the child has links of its own) or LOWER link, a disconnect reported by a non-parent, death (exit / kill-date / mark dead) of any session, mark alive (preferably of an inactive session), check-in, poll, sleep, registration of an id that has no session in memory (not restored by the last restart), connect of ANY agent below any active session - preferably of a session whose STORED parent has no session in memory since the last restart, and of ids that are not in memory themselves -, listener add/remove, the old conditional restart, and 'restartx' = a restart at ANY point (several per history), i.e. also while a stored link names a session that is stored inactive (the start then restores the child without its parent and leaves the row). Labels: disconnect-of-upper-link, disconnect-of-lower-link, disconnect-reported-by-non-parent, restart-after-upper-link-disconnect, restart-leaves-child-of-unrestored-parent-as-root, reconnect-of-agent-whose-stored-parent-is-not-in-memory (reconnect-path:session-in-memory,stored-parent-not / connect-as-new:stored-parent-not-in-memory), restart-after-reconnect-of-agent-whose-stored-parent-was-not-in-memory, re-parented-after-restart, registration-of-unrestored-id, registration-of-unrestored-parent-with-stored-children, unrestored-id-registers-through-a-pivot, mark-alive-of-inactive-session, death-after-restart, connect-reported-by-inactive-session, restarts-at-any-point:2+, pivot-depth:n. Oracle for these histories (agents, 25 columns, key/IV and listeners as before): after EVERY restart the restored sessions == the sessions active before it, and the parent and the Links of every restored session == the pairs given by the link events of the history (connect(A,B) makes A the one stored parent of B; a disconnect reported by the parent or a death of either end while the server holds the link removes it; a session whose parent is not restored comes back as a root and gets its parent back when the parent is active again at a later start - what the unchanged tree does, followed operation by operation by pmodel, validated against it by TestC10PivModel); TS_Links never holds two rows for one child (signature links|two-rows-for-one-child); the final reopen is compared with the same model (signatures any-point-restart|...). The fingerprint of these histories gets a suffix any-point-restart=<plain | orphan+restart | upper-cut+restart | dangling-reconnect | dangling-reconnect+restart>[+parent-back]",
 		Gen:   genA, Check: checkA, Classify: classifyH,
 		Assumptions: []string{
 			"reference for 'what had happened' is the state the running server holds in memory when the last operation returned; callbacks are delivered through agent.TaskDispatch, registrations and polls through handlers.(*External).Request",
 			"self/ancestor pivot connects are not generated here (C09); removing an HTTP listener is not exercised (HTTP.Stop always sleeps 5 s)",
+			"histories with restarts at any point: a connect naming a session that is an ancestor of the sender by the STORED rows (possible once a stored parent came back by registration without its link) is not delivered either - on the unchanged tree it stores a cycle that the next start turns into a cyclic Parent chain (C09's subject; shown by TestC10PivCycle)",
+			"for histories with restarts at any point the reference for the parent/child pairs is the sequence of link events (model pmodel in piv_test.go), not the server's Links lists: after such a restart the lists lack the links whose parent was not restored while their rows are still stored",
 			"list-valued listener fields contain no empty element and no ', ' (the operator dialog joins and the server splits on ', ')",
 			"database on tmpfs when available; reopening happens in the same process after closing nothing (the server's handle stays open, as after a crash the file is all there is)",
 		},
